@@ -684,6 +684,45 @@ def observe(cfg, want):
             obs["Msrc"] = mat_entries(P.linearSourceTerm(P.CellVariable(c.m, to_float_array(cfg["beta"]))), c.dims)
         if "Rsrc" in W:
             obs["Rsrc"] = vec_nested(P.constantSourceTerm(P.CellVariable(c.m, to_float_array(cfg["gamma"]))), c.dims)
+        if "builderforms" in W:
+            # extended coverage: every builder gives the same numbers (relative 1e-12) when its coefficient /
+            # field arrives integer-typed, Fortran-ordered or as a strided view
+            def tr(a_, form):
+                if a_.size == 0 or form == "plain":
+                    return a_.copy()
+                return {"int": lambda: a_.astype(np.int64), "fortran": lambda: np.asfortranarray(a_.copy()),
+                        "strided": lambda: np.repeat(a_, 2, axis=0)[::2]}[form]()
+            def mkF(F, form):
+                return P.FaceVariable(c.m, *[tr(np.asarray(x), form) for x in (F._xvalue, F._yvalue, F._zvalue)])
+            def mkC(form):
+                return P.CellVariable(c.m, tr(c.phi_full, form))
+            fcomps = lambda R: np.concatenate([np.asarray(x, dtype=float).ravel() for x in (R._xvalue, R._yvalue, R._zvalue)])
+            SB = P.fluxLimiter("SUPERBEE")
+            tests = {
+                "diffusionTerm": lambda f: P.diffusionTerm(mkF(c.D, f)).toarray(),
+                "convectionTerm": lambda f: P.convectionTerm(mkF(c.u, f)).toarray(),
+                "convectionUpwindTerm": lambda f: P.convectionUpwindTerm(mkF(c.u, f), mkF(c.uup, f)).toarray(),
+                "divergenceTerm": lambda f: np.asarray(P.divergenceTerm(mkF(c.u, f))),
+                "tvd_velocity": lambda f: np.asarray(P.convectionTVDupwindRHSTerm(mkF(c.u, f), mkC("plain"), SB)),
+                "tvd_field": lambda f: np.asarray(P.convectionTVDupwindRHSTerm(c.u, mkC(f), SB)),
+                "gradientTerm": lambda f: fcomps(P.gradientTerm(mkC(f))),
+                "transientTerm": lambda f: np.asarray(P.transientTerm(mkC(f), 0.5, 1.0)[1]),
+                "domainIntegral": lambda f: np.array([mkC(f).domainIntegral()]),
+                "face_arithmetic": lambda f: fcomps(mkF(c.u, f) * 0.5 + mkF(c.D, f) / 3),
+                "cell_arithmetic": lambda f: np.asarray((mkC(f) * 0.5 + mkC(f) / 3)._value),
+            }
+            flags = {}
+            for nm, fn in tests.items():
+                ref = fn("plain")
+                ok = True
+                for form in ("int", "fortran", "strided"):
+                    try:
+                        y = fn(form)
+                        ok = ok and y.shape == ref.shape and bool(np.allclose(ref, y, rtol=1e-12, atol=1e-300, equal_nan=True))
+                    except Exception:       # noqa: BLE001
+                        ok = False
+                flags[nm] = ok
+            obs["builderforms"] = flags
         if "srcforms" in W:
             # the source coefficient handed over in other admissible array forms (ghost-inclusive C-ordered /
             # Fortran-ordered / transposed-view / integer-typed, interior Fortran-ordered): same matrix, same vector
